@@ -1,4 +1,4 @@
 SPECIFICATION Spec
-CONSTANT DupModel = "current"
+CONSTANT Regress = "none"
 INVARIANT ClausesHold
 CHECK_DEADLOCK FALSE
